@@ -19,6 +19,12 @@ def main():
     hash_seed = os.environ.get('PYTHONHASHSEED', 'random')
     ctx = Ctx(prop, tier, int(seed), int(shard_index), hash_seed, spec)
     status = {'ok': True}
+    cov = None
+    if os.environ.get('VERIF_COVERAGE_DIR'):      # development aid only (tools/coverage_report.py); never set by a registered command
+        import coverage
+        from pbt.common import REPO_SRC
+        cov = coverage.Coverage(data_file=os.path.join(os.environ['VERIF_COVERAGE_DIR'], f'cov.{prop}.{shard_index}'), source=[REPO_SRC], branch=True)
+        cov.start()
     try:
         import_pregex()
         mod = importlib.import_module(f'pbt.props.{prop.lower()}')
@@ -27,6 +33,9 @@ def main():
         status = {'ok': False, 'error': f'HarnessError: {e}', 'trace': traceback.format_exc()}
     except BaseException as e:  # noqa: BLE001 - anything escaping a property is a harness bug
         status = {'ok': False, 'error': f'{type(e).__name__}: {e}', 'trace': traceback.format_exc()}
+    if cov is not None:
+        cov.stop()
+        cov.save()
     data = ctx.to_json()
     data['status'] = status
     with open(out, 'w') as f:
